@@ -5,11 +5,19 @@
 (*  names   param_names of a constructed model expression, or the refusal to construct it   *)
 (*  call    model(x, **params) with a given key set: accepted or refused                    *)
 (*  aux     keys of guess() and param_bounds                                                *)
-(*  poly    integer polynomial: coefficients, points, values returned (exact)               *)
+(*  poly    integer polynomial: coefficients, points, values returned (exact), together     *)
+(*          with the evaluation variant (element type of x `xd` and of every coefficient     *)
+(*          `cds`, layout of x, order of the keyword arguments)                              *)
 (*  unit    unit of the result (or refusal) for given parameter / coordinate units          *)
 (*  sum     unit of a composite from the units of its parts                                 *)
 (*  flags   numeric comparisons made by the harness against 50-digit closed forms           *)
-(*          (point values, symmetry, half maximum, FWHM, integral, bitwise equalities)      *)
+(*          (point values, symmetry, half maximum, FWHM, integral, bitwise equalities,       *)
+(*          evaluation variants, second use of the same objects); a refused evaluation      *)
+(*          carries the element types of its operands (`types`) and the class of the        *)
+(*          exception (`exc`): a DTypeError with an integer-typed operand is accepted as    *)
+(*          "unsupported element types" (weakest reading), everything returned is judged     *)
+(*  replay  a case evaluated a second time at the end of the run, in another order:         *)
+(*          `second` is judged like any event and must equal the first observation          *)
 EXTENDS PeakModelsDefs, TLC, Json, IOUtils
 
 Tr == ndJsonDeserialize(IOEnv.TRACE_FILE)
@@ -41,10 +49,20 @@ JudgeAux(e) ==
     ELSE "ok"
 
 JudgePoly(e) ==
-    IF e.out = "refused" THEN "polynomial_refused"
+    IF e.xd \notin DTypes \/ ~(SeqToSet(e.cds) \subseteq DTypes) \/ Len(e.cds) # Len(e.coefs)
+       \/ e.layout \notin XLayouts \/ e.order \notin KeyOrders THEN "unknown_variant"
+    ELSE IF e.out = "refused" THEN
+        \* a scipp DTypeError for a call with an integer-typed operand is "unsupported", not a verdict
+        (IF e.exc = "DTypeError" /\ (\E d \in SeqToSet(e.cds) \cup {e.xd} : IsIntType(d)) THEN "ok"
+         ELSE IF e.layout # "1d" THEN "polynomial_refused_for_this_layout_of_x"
+         ELSE "polynomial_refused")
+    ELSE IF e.out = "nonfinite" THEN "polynomial_value_is_not_finite"
     ELSE IF e.out # "ok" THEN "polynomial_is_not_sum_a_i_x_i"
     ELSE IF Len(e.got) # Len(e.xs) THEN "polynomial_shape"
     ELSE IF \E i \in 1..Len(e.xs) : e.got[i] # PolyValue(e.coefs, e.xs[i]) THEN "polynomial_is_not_sum_a_i_x_i"
+    ELSE IF ~e.args_same THEN "evaluation_modified_its_arguments"
+    ELSE IF ~e.again_same THEN "second_evaluation_with_the_same_objects_differs"
+    ELSE IF ~e.kept THEN "earlier_result_changed_by_a_later_evaluation"
     ELSE "ok"
 
 JudgeUnit(e) ==
@@ -62,13 +80,16 @@ JudgeSum(e) ==
        ELSE "result_unit_differs"
 
 JudgeFlags(e) ==
-    IF e.out # "ok" THEN "evaluation_refused"
+    IF e.out # "ok" THEN
+        \* a scipp DTypeError for a call with an integer-typed operand is "unsupported", not a verdict
+        (IF e.exc = "DTypeError" /\ (\E d \in SeqToSet(e.types) : IsIntType(d)) THEN "ok"
+         ELSE "evaluation_refused")
     ELSE IF \E i \in 1..Len(e.flags) : ~e.flags[i][2] THEN
         (LET i0 == CHOOSE i \in 1..Len(e.flags) : ~e.flags[i][2] /\ \A j \in 1..(i-1) : e.flags[j][2]
          IN e.flags[i0][1])
     ELSE "ok"
 
-Judge(e) == CASE e.ev = "names" -> JudgeNames(e)
+Judge1(e) == CASE e.ev = "names" -> JudgeNames(e)
               [] e.ev = "call" -> JudgeCall(e)
               [] e.ev = "aux" -> JudgeAux(e)
               [] e.ev = "poly" -> JudgePoly(e)
@@ -76,6 +97,14 @@ Judge(e) == CASE e.ev = "names" -> JudgeNames(e)
               [] e.ev = "sum" -> JudgeSum(e)
               [] e.ev = "flags" -> JudgeFlags(e)
               [] OTHER -> "unknown_event"
+
+(* a replayed case: the second observation is judged on its own, then against the first *)
+Judge(e) == IF e.ev = "replay"
+            THEN (LET v == Judge1(e.second) IN
+                  IF v # "ok" THEN v
+                  ELSE IF ~e.same THEN "replayed_case_differs_from_its_first_evaluation"
+                  ELSE "ok")
+            ELSE Judge1(e)
 
 TInit == ln = 1 /\ nbad = 0
 TNext == /\ ln <= Len(Tr)
